@@ -481,6 +481,70 @@ theorem C15_pragma_no_cache (cfg : Cfg) (w : World) (r : Req) (p : Plan) (h : sN
   · exact ⟨false, rfl⟩
   · exact ⟨true, rfl⟩
 
+/-- `Cache-Control: no-cache` (or `no-cache=...`) anywhere among the request's Cache-Control elements:
+    the handler is reached from any state, whatever other directives (a valid or malformed
+    `max-age` included) accompany it — `header_elements` order puts `no-cache` before `max-age`. -/
+theorem C15_cc_no_cache (cfg : Cfg) (w : World) (r : Req) (p : Plan)
+    (h : ∃ v ∈ r.cc, (splitEq v).1 = sNoCache) : ∃ c, (request cfg w r p).2 = .miss w.nextGen c := by
+  have hs : scanCC (sortDesc r.cc) = .noCache := by
+    apply scan_desc_no_cache _ (sortDesc_desc _)
+    obtain ⟨v, hv, hd⟩ := h
+    exact ⟨v, (mem_sortDesc v _).mpr hv, hd⟩
+  unfold request
+  split
+  · exact ⟨false, rfl⟩
+  · split
+    · exact ⟨true, rfl⟩
+    · split
+      · exact ⟨true, rfl⟩
+      · rw [hs]
+        exact ⟨true, rfl⟩
+
+/-- non-vacuity / reading of `C15_fresh`: a lone `max-age=5` is what the loop selects -/
+example : scanCC (sortDesc [['m', 'a', 'x', '-', 'a', 'g', 'e', '=', '5']]) = .proceed (some 5) := by decide
+example : scanCC (sortDesc [['m', 'a', 'x', '-', 'a', 'g', 'e', '=', '5'], sNoCache]) = .noCache := by decide
+example : scanCC (sortDesc [['m', 'a', 'x', '-', 'a', 'g', 'e']]) = .bad := by decide
+
+/-! ### the store key (finding C15-N1) -/
+
+/-- Two different (path, query) pairs with the same store key: `/a?x` + empty query and `/a` + `x`. -/
+theorem C15_uriKey_collision :
+    uriKey ['/', 'a', '?', 'x'] [] = uriKey ['/', 'a'] ['x'] ∧ (['/', 'a', '?', 'x'], ([] : Str)) ≠ (['/', 'a'], ['x']) := by
+  decide
+
+theorem append_q_inj (p1 q1 p2 q2 : Str) (h1 : '?' ∉ p1) (h2 : '?' ∉ p2)
+    (h : p1 ++ '?' :: q1 = p2 ++ '?' :: q2) : p1 = p2 ∧ q1 = q2 := by
+  induction p1 generalizing p2 with
+  | nil =>
+    cases p2 with
+    | nil => simpa using h
+    | cons b bs =>
+      simp only [List.nil_append, List.cons_append, List.cons.injEq] at h
+      exact absurd (by rw [← h.1]; simp) h2
+  | cons a as ih =>
+    cases p2 with
+    | nil =>
+      simp only [List.nil_append, List.cons_append, List.cons.injEq] at h
+      exact absurd (by rw [h.1]; simp) h1
+    | cons b bs =>
+      simp only [List.cons_append, List.cons.injEq] at h
+      have := ih bs (fun hm => h1 (List.mem_cons_of_mem _ hm)) (fun hm => h2 (List.mem_cons_of_mem _ hm)) h.2
+      exact ⟨by rw [h.1, this.1], this.2⟩
+
+/-- ... and that is the only way: for paths without `?` the key determines path and query. -/
+theorem C15_uriKey_injective_partial (p1 q1 p2 q2 : Str) (h1 : '?' ∉ p1) (h2 : '?' ∉ p2)
+    (h : uriKey p1 q1 = uriKey p2 q2) : p1 = p2 ∧ q1 = q2 := by
+  unfold uriKey at h
+  split at h <;> split at h
+  · rename_i a b; exact ⟨h, a.trans b.symm⟩
+  · rename_i a b
+    exact absurd (by rw [h]; simp) h1
+  · rename_i a b
+    exact absurd (by rw [← h]; simp) h2
+  · exact append_q_inj p1 q1 p2 q2 h1 h2 h
+
+example : '?' ∉ (['/', 'a'] : Str) := by decide
+
 /-! ### size accounting -/
 
 /-- **C15_size_bounds.**  In every history `cursize` is never negative, is `0` or below `maxsize`,
@@ -521,6 +585,37 @@ theorem C15_stored_objects (cfg : Cfg) (ops : List Op) (uri : Str) (uc : UriCach
   obtain ⟨e, he, a, b, _, d, st⟩ := hI.vals uri uc key v h1 h2
   exact ⟨e, by simpa using he, a, b, d, st.2.2.2.1, st.2.2.2.2.1, st⟩
 
+def hXA : Str := ['X', '-', 'A']
+def hXB : Str := ['X', '-', 'B']
+
+/-! ### what recording the header NAMES in `expirations` does (not a violation of C15: a leak) -/
+
+def lkCfg (byNames : Bool) : Cfg :=
+  { delay := 1, maxobjects := 1000, maxobjSize := 100000, maxsize := 10000000, sweepByNames := byNames,
+    invalid := [] }
+def lkReq (a : Str) : Req :=
+  { method := ['G', 'E', 'T'], uri := ['/', 'a'], hdrs := [(hXA, a)], pragma := [], cc := [] }
+def lkPlan (size : Nat) : Plan := { vary := [hXA], size := size, noStore := false, pragmaNoCache := false }
+
+/-- With the names as sweep key an expired variant of a resource with `Vary: X-A` survives the
+    sweep and `cursize` is not given back; with the values as key it is removed. -/
+theorem C15_sweep_by_names_leaks :
+    (let w := runOps (lkCfg true) {} [.req (lkReq ['p']) (lkPlan 12), .tick 8, .sweep]
+     countVals w.cache.store = 1 ∧ w.cache.cursize = 12 ∧ w.cache.exps.length = 0) ∧
+    (let w := runOps (lkCfg false) {} [.req (lkReq ['p']) (lkPlan 12), .tick 8, .sweep]
+     countVals w.cache.store = 0 ∧ w.cache.cursize = 0 ∧ w.cache.exps.length = 0) := by
+  decide
+
+/-- ... and when a header value happens to equal the header's name, the sweep of *another*
+    variant's entry removes it and subtracts the wrong size: `cursize = 10` while the response of
+    1000 bytes (generation 1) is still stored. -/
+theorem C15_sweep_by_names_undercounts :
+    (let w := runOps (lkCfg true) {}
+        [.req (lkReq ['p']) (lkPlan 1000), .tick 1, .req (lkReq hXA) (lkPlan 10), .tick 3, .sweep]
+     w.cache.cursize = 10 ∧ countVals w.cache.store = 1 ∧
+       (exec (lkCfg true) w [.req (lkReq ['p']) (lkPlan 1000)]).map (·.out) = [.hit 1 1]) := by
+  decide
+
 /-! ### the statement without `VaryStable` is false (finding F16b) -/
 
 /-- C15_hit_genuine without the hypothesis that a URI keeps its Vary list. -/
@@ -530,8 +625,6 @@ def C15_hit_genuine_full : Prop :=
     ∃ e' ∈ pre, e'.out = .miss g true ∧ e'.r.uri = e.r.uri ∧ ∀ h ∈ e'.p.vary, hget e.r h = hget e'.r h
 
 def wCfg : Cfg := { delay := 10, maxobjects := 1000, maxobjSize := 100000, maxsize := 10000000 }
-def hXA : Str := ['X', '-', 'A']
-def hXB : Str := ['X', '-', 'B']
 def wReq (a b : Char) : Req :=
   { method := ['G', 'E', 'T'], uri := ['/', 'a'], hdrs := [(hXA, [a]), (hXB, [b])], pragma := [], cc := [] }
 def wPlan (vary : List Str) : Plan := { vary := vary, size := 12, noStore := false, pragmaNoCache := false }
